@@ -69,7 +69,10 @@ PROPS = {
         trusted=['T3 as for C07', 'T8 every configured mapping satisfies internal+range <= 2^32 and external+range <= 2^32 (map_ok; Vfs::new never validates it - DESIGN.md section 7, O2)'],
     ),
     'C01': dict(
-        vx_units=['server', 'fusedevw', 'cstrs'], kx=[], rx=['server', 'readdir'],
+        vx_units=['server', 'fusedevw', 'cstrs', 'virtiofsw', 'writerenum'], kx=[], rx=['server', 'readdir'],
+        # "check_available_space refuses writes beyond capacity" on the virtio-fs side and the Writer enum handing every write to the wrapped writer are C04 obligations
+        # of units virtiofsw / writerenum: a failure of one of these counts for C01 ("never touches memory outside the supplied buffers ... over either transport") as well
+        alias=[r'^C04\.vwriter\.space', r'^C04\.\w+\.exceeds_fails', r'^C04\.writer\.'],
         design_ref='DESIGN.md section 5, C01',
         not_covered=[
             'memory safety of the unsafe blocks below the transport seam (get_message_body::set_len, Reader::read_obj, FuseDevWriter raw Vecs, virtio copy_nonoverlapping) and descriptor-chain construction',
@@ -232,13 +235,15 @@ PROPS = {
                  'cargo feature `persist` switched on for these units only; rules R33 (iter().map().collect() as an index loop) and R34 (`if C { continue; } REST` as if/else)'],
     ),
     'C20': dict(
-        vx_units=['asyncsrv', 'asyncdevw', 'asyncarcfs', 'asyncvfs', 'server', 'arcfs', 'vfs', 'writerenum'], kx=[],
+        vx_units=['asyncsrv', 'asyncdevw', 'asyncarcfs', 'asyncvfs', 'server', 'arcfs', 'vfs', 'writerenum', 'virtiofsw_async'], kx=[],
+        # the async entry points of VirtioFsWriter are verified in unit virtiofsw_async against the clauses of their sync twins (same cursor movement, same marking, same refusals)
+        alias=[r'^C04\.async_', r'^C17\.async_', r'^virtiofsw_async\.'],
         design_ref='DESIGN.md A.4',
         not_covered=[
             'which error reply (or none) a MALFORMED request gets: the specification allows any well-formed error reply there, so two different ones would both verify (by reading, the two paths are identical)',
             'that the operation IS invoked (capabilities forbid calls, they cannot demand one); that a reply is sent is covered as on the sync side, on results ([C20.<op>.replied] / [C20.<op>.answered], same clauses as C01)',
             'interleavings with other tasks, cancellation at an await point, Send and lifetime obligations of the futures (rule R18 drops `async` and `.await`)',
-            'bytes moved through AsyncZcWriter / AsyncZcReader; VirtioFsWriter async entry points (forward to sync, by reading); FuseDevWriter::async_write* bodies (closures capturing &mut self)',
+            'bytes moved through AsyncZcWriter / AsyncZcReader; FuseDevWriter::async_write* bodies (closures capturing &mut self)',
             'non-forwarding bodies of the Arc<FS> AsyncFileSystem impl are undecided (exit 2); async results cannot carry the passthrough backing id (Vfs async_open / async_create are specified as the sync result minus that component); AsyncFileSystem impls of PassthroughFs / OverlayFs',
             'logging and MetricsHook calls',
         ],
